@@ -88,7 +88,19 @@ theorem interp_good (reg : Registry) : ∀ f : Nat,
         | text t => exact Good.withCtx c2 (tplWrites_good _ _ _ _ _)
       | ctx cs => rw [writeNode]; exact good_ctx_only
       | counter cs => rw [writeNode]; exact good_ctx_only
-      | condOK => rw [writeNode]; exact good_of_same_writer rfl
+      | condOK k child =>
+        rw [writeNode]
+        split
+        · exact good_of_same_writer rfl
+        · generalize evalCondOK s.c k = ec
+          obtain ⟨c1, o⟩ := ec
+          cases o with
+          | stop e => exact good_ctx_only
+          | branch r pending =>
+            simp only
+            split
+            · exact Good.withCtx c1 (ihN _ _)
+            · exact good_ctx_only
       | cond cd child =>
         rw [writeNode]
         generalize evalCond s.c cd = ec
